@@ -210,7 +210,8 @@ def check(ctx):
                 p_ctx, p_plane]:
             cmp_ = parent(p)
             good = isinstance(cmp_, ast.Compare) and len(cmp_.ops) == 1 and isinstance(
-                cmp_.ops[0], (ast.Gt, ast.GtE, ast.Lt, ast.LtE)) and ast.unparse(cmp_.comparators[0]) == "0"
+                cmp_.ops[0], (ast.Gt, ast.GtE, ast.Lt, ast.LtE)) and "0" in (
+                    ast.unparse(cmp_.comparators[0]), ast.unparse(cmp_.left))
             ok5 = ok5 and good
             detail.append("projection compared: %s" % (ast.unparse(cmp_) if cmp_ is not None else "?"))
         elif isinstance(p, ast.Attribute) and p.attr == "shape":
@@ -229,7 +230,8 @@ def check(ctx):
         signs = " ".join(ast.unparse(_inline(gh.node, ast.parse(lb["_EPS_"], mode="eval").body)).split())
         proj = "np.dot(%s, %s)" % (p_ctx, p_plane)
         ok_sum = signs in ("1 * (%s > 0)" % proj, "(%s > 0) * 1" % proj, "(%s > 0).astype(int)" % proj,
-                           "np.where(%s > 0, 1, 0)" % proj)
+                           "np.where(%s > 0, 1, 0)" % proj, "1 * (0 < %s)" % proj, "(0 < %s) * 1" % proj,
+                           "(0 < %s).astype(int)" % proj, "np.where(0 < %s, 1, 0)" % proj)
     ctx.check(ok_sum, "R11.5", "hash code = sum over planes of 2^i * [projection_i > 0]", gh.node, gh,
               construct="hash code accumulation")
     # ---- R11.2 traces
